@@ -350,6 +350,33 @@ def local_env(fn):
     return env
 
 
+def reaching_env(fn, node):
+    """local_env(fn), with every name bound more than once resolved to the binding that reaches `node`: the nearest preceding assignment in the
+    statement lists that contain it (innermost wins)"""
+    env = local_env(fn)
+    chain = []
+
+    def find(stmts, acc):
+        for i, st in enumerate(stmts):
+            if st is node or any(x is node for x in ast.walk(st)):
+                acc.append((stmts, i))
+                for fld in ("body", "orelse", "finalbody"):
+                    v = getattr(st, fld, None)
+                    if isinstance(v, list) and v and any(x is node for y in v for x in ast.walk(y)):
+                        find(v, acc)
+                if isinstance(st, ast.Try):
+                    for h in st.handlers:
+                        if any(x is node for y in h.body for x in ast.walk(y)):
+                            find(h.body, acc)
+                return
+    find(fn.body, chain)
+    for stmts, i in chain:
+        for prev in stmts[:i]:
+            if isinstance(prev, ast.Assign) and len(prev.targets) == 1 and isinstance(prev.targets[0], ast.Name):
+                env[prev.targets[0].id] = prev.value
+    return env
+
+
 def len_role(e, env, depth=0):
     if isinstance(e, ast.Name) and env and e.id in env and depth < 4:
         return len_role(env[e.id], env, depth + 1)
@@ -373,9 +400,22 @@ def expand(g: Guard, fn) -> Guard:
     if isinstance(t, ast.Compare) and len(t.ops) == 1 and isinstance(t.left, ast.Call) and ast.unparse(t.left.func) == "len" \
             and isinstance(t.comparators[0], ast.Constant) and t.comparators[0].value == 0 and isinstance(t.ops[0], (ast.Gt, ast.NotEq)):
         t = t.left.args[0]
+    if isinstance(t, ast.Compare) and len(t.ops) == 1 and isinstance(t.ops[0], ast.IsNot) and isinstance(t.comparators[0], ast.Constant) \
+            and t.comparators[0].value is None and isinstance(t.left, ast.Name):
+        t = t.left               # `x is not None` for x = next((... if cond), None): some element satisfies cond
     if not isinstance(t, ast.Name) or neg or t.id not in env:
         return g
     v = env[t.id]
+    # the definition that reaches the guard: the nearest preceding assignment of the name in the guard's own statement list (a name reused for
+    # several checks -- `shared = A & B; if shared: raise` three times -- means something different each time)
+    for lst in [getattr(n_, f_) for n_ in ast.walk(fn) for f_ in ("body", "orelse", "finalbody") if isinstance(getattr(n_, f_, None), list)]:
+        if any(x is g.node for x in lst):
+            k = next(i for i, x in enumerate(lst) if x is g.node)
+            for prev in reversed(lst[:k]):
+                if isinstance(prev, ast.Assign) and len(prev.targets) == 1 and isinstance(prev.targets[0], ast.Name) and prev.targets[0].id == t.id:
+                    v = prev.value
+                    break
+            break
     while isinstance(v, ast.Call) and isinstance(v.func, ast.Name) and v.func.id in ("sorted", "list", "tuple", "set", "frozenset") and len(v.args) == 1:
         v = v.args[0]            # sorted(A - B) is empty exactly when A - B is
     if isinstance(v, ast.BinOp) and isinstance(v.op, ast.Sub):
@@ -389,7 +429,10 @@ def expand(g: Guard, fn) -> Guard:
     if inter:
         new = ast.parse(f"({ast.unparse(inter[0])}).isdisjoint({ast.unparse(inter[1])})", mode="eval").body
         return Guard(g.mod, g.qual, g.node, new, True, g.ctxs, g.order)
-    if isinstance(v, (ast.ListComp, ast.DictComp, ast.SetComp)) and len(v.generators) == 1 and len(v.generators[0].ifs) == 1:
+    if isinstance(v, ast.Call) and isinstance(v.func, ast.Name) and v.func.id == "next" and len(v.args) == 2 and isinstance(v.args[1], ast.Constant) \
+            and v.args[1].value is None and isinstance(v.args[0], ast.GeneratorExp):
+        v = v.args[0]            # the first offender, or None: a raise under `is not None` refuses exactly when some element offends
+    if isinstance(v, (ast.ListComp, ast.DictComp, ast.SetComp, ast.GeneratorExp)) and len(v.generators) == 1 and len(v.generators[0].ifs) == 1:
         gen = v.generators[0]
         loop = ast.For(target=gen.target, iter=gen.iter, body=[], orelse=[], lineno=g.node.lineno, col_offset=0)
         return Guard(g.mod, g.qual, g.node, gen.ifs[0], False, g.ctxs + [("for", loop)], g.order)
@@ -421,7 +464,7 @@ def classify(g: Guard, fn, graph: Graph, _probe=False) -> List[str]:
                         outw.append(f"weak|{c}|the refusal `{ast.unparse(v_)[:50]}` is only made when also `{others[:60]}`")
             return outw
         return []
-    env = local_env(fn)
+    env = reaching_env(fn, g.node)
     g = expand(g, fn)
     t = g.test
     out = []
@@ -529,7 +572,9 @@ def _is_set_name(name, env):
 
 
 def _per_sensor_size(l, r, env):
-    txt = ast.unparse(l) + " " + ast.unparse(r)
+    def res(e):
+        return env[e.id] if isinstance(e, ast.Name) and env and e.id in env and isinstance(env[e.id], ast.AST) else e
+    txt = ast.unparse(res(l)) + " " + ast.unparse(res(r))
     return "sensor_noises[" in txt and ("len(" in txt or "sensor_size" in txt)
 
 
